@@ -169,7 +169,7 @@ PROPS = {
     },
     "C01": {
         "level_text": "Coq theorems about the code-shaped model of the predicate-graph checker and an independent reference semantics (Spec/GraphRef.v): the level sort succeeds exactly on acyclic graphs, lists every node once with every edge going to a strictly later level, and never panics or runs out of fuel; malformed or cyclic graphs are rejected with the invalid-graph error before a single program is run; every node is run exactly once after all its parents on exactly the concatenation of their outputs in ascending parent order (nothing dropped by the filter_map); the verdict, gas and data outputs equal the reference; the first reported failing node is a genuine failure; the verdict, gas and data are invariant under renumberings that keep the order of co-parents; the two run modes over a shared cache evaluate each node exactly once. Correspondence: random DAGs with non-topological numberings, multi-edges, diamonds, raw malformed/cyclic/dangling encodings, 1-3 solutions, both collect_all values; the run recorder hook reports every program run with its inputs; the reference semantics is evaluated against the implementation's verdict, gas, returned set and runs.",
-        "properties": "Properties/C01",
+        "properties": ["Properties/C01", "Properties/TwoModeThms"],
         "corr": ["Corr/RunGraph"],
         "engines": [{"engine": "graph", "quick": 900, "thorough": 20000}],
         "rule": "abstract random DAGs of 1..8 nodes numbered with non-leaves first in arbitrary (usually non-topological) order, multi-edges, "
@@ -226,5 +226,36 @@ PROPS = {
                 "each through content_addr, check_set and check_and_compute_solution_set_two_pass; sets in which two solutions of one contract "
                 "propose a value for the same key are the known finding F10 and are reported as such; non-trivial = at least two solutions",
         "assumes": ["claimed outside the class of known finding F10 (cross-solution proposals for one slot)"],
+    },
+    "C06": {
+        "inventory": True,
+        "level_text": "Coq theorems that no modelled panic site (slice indexing, expect, unchecked arithmetic - all explicit Panic outcomes in the models) is reachable: the mutation, predicate and bytecode decoders and the mapped-bytecode constructor are total on every input; set/contract validation is total; the level sort is total on every graph; run_program never panics from well-typed inputs and produces well-typed outputs (via C05's exec_no_panic), and by an invariant over the caches check_predicate, check_set_predicates, check_and_compute and the two-pass entry point never panic for ANY lookup (cyclic, dangling, malformed graphs; arbitrary program bytes; data outputs that are not mutation encodings; any read counts). OutOfFuel (non-termination of a node program under unlimited gas) is explicitly allowed. Correspondence: exhaustive short word strings over boundary values and random/mutated inputs for the decoders, graph cases with invalid data outputs, cyclic/dangling graphs and huge read counts. Known findings F12/F13: allocation exhaustion by a huge Compute breadth or post-read count is outside what the model expresses and is probed in a child process.",
+        "properties": "Properties/C06",
+        "corr": ["Corr/RunTypes", "Corr/RunGraph", "Corr/RunMapped"],
+        "engines": [
+            {"engine": "types", "quick": 500, "thorough": 10000, "args": ["--kinds", "mut,pred"]},
+            {"engine": "graph", "name": "graph06", "quick": 400, "thorough": 8000},
+            {"engine": "mapped", "quick": 300, "thorough": 8000},
+        ],
+        "probes": [
+            {"class": "compute_breadth_allocation", "cmd": "probe-compute-breadth", "mem_kb": 3000000, "timeout": 60,
+             "what": "a node program PUSH 2^40; COM aborts the process on allocation"},
+            {"class": "post_read_count_allocation", "cmd": "probe-post-read-count", "mem_kb": 1500000, "timeout": 60,
+             "what": "read_or_fallback with a count of 2^40 on a contract with proposals iterates and allocates count times"},
+        ],
+        "rule": "all word strings of length <=4 over {-1,0,1,2,i64::MAX} (thorough: <=5 over 7 values) through decode_mutations, the F4/F5 inputs, "
+                "random encodings mutated/truncated/extended; random predicates encoded, decoded, truncated, corrupted; node_edges for every index; "
+                "byte strings with an invalid opcode at every position; graph cases with non-encodings as data outputs, cycles, dangling edges, i64::MAX read counts",
+        "assumes": ["solutions, state and programs are well-typed values (i64 words, 32-byte addresses, u8 bytes)", "termination of node programs is not claimed (unlimited gas)"],
+    },
+    "C18": {
+        "level_text": "Coq theorems: decode(encode) = id for mutation lists (any keys/values) and predicates (<=1000 nodes/edges, any edge_start incl. the leaf marker, trailing bytes ignored), injectivity, reported sizes = lengths; word/8-byte, 4-word/32-byte, 8-word/64-byte conversions inverse in both directions; hex upper/lower encode with case-insensitive decode, words<->hex, Display/FromStr of ContentAddress and Signature with wrong lengths rejected; node_edges returns exactly the documented sub-range (empty for leaves, None exactly for invalid ranges); the human-readable serde surface of all public types round-trips at the data-model level incl. the legacy field names `data` and `decision_variables`, any field order, unknown fields ignored; the binary (postcard) encoding of a solution decodes back. Correspondence against the crates incl. serde_json::to_value trees read back by the model and postcard/JSON round trips of the implementation. Partial: serde_json and postcard themselves are third-party.",
+        "properties": ["Properties/C18", "Properties/PredicateCodecThms", "Properties/TextCodecThms"],
+        "corr": ["Corr/RunTypes"],
+        "engines": [{"engine": "types", "quick": 1200, "thorough": 30000, "args": ["--kinds", "mut,pred,conv,text"]}],
+        "rule": "mutation lists with keys/values of 0..3 words, their encodings and mutated encodings; predicates with 0..4 nodes, 0..5 edges, leaf markers "
+                "and out-of-range edge_start; words from the boundary pool; 32/64-byte arrays; hex of word lists in both cases; Display/FromStr of random "
+                "addresses and signatures in both cases; solution sets through serde_json (value tree, string, legacy names) and postcard",
+        "assumes": ["serde_json / postcard / hex are third-party; their text/byte level behaviour is covered by correspondence only"],
     },
 }
